@@ -303,10 +303,32 @@ def run_scenario(ctx, desc):
         arr = xr.DataArray(r.random([ds.sizes[d] for d in tdims]), dims=tdims)
         src = xr.DataArray(r.random([ds.sizes[d] for d in fdims]), dims=fdims)
 
+        # several metrics registered in ONE later call for an axis that already has some, followed by requests whose answer
+        # depends on which of them is taken (nothing registered at the array's position: one of them is interpolated; two
+        # of them fit the array): whichever it is, it is the same under every hash seed
+        A, B = names[0], names[1]
+        n2 = desc["n"][0]
+        ds2 = xr.Dataset(coords={f"{A}_c": np.arange(n2) + 0.5, f"{A}_l": np.arange(n2) + 0.0, f"{A}_r": np.arange(n2) + 1.0,
+                                 f"{A}_o": np.arange(n2 + 1) + 0.0, f"{B}_c": np.arange(3) + 0.5})
+        late = [f"{A}{B}w", f"w{B}{A}", f"{B}_{A}_2d"]
+        ds2[f"first_{A}"] = ((f"{A}_c",), 0.5 + r.random(n2))
+        ds2[late[0]] = ((f"{A}_r",), 0.5 + r.random(n2))
+        ds2[late[1]] = ((f"{A}_o",), 0.5 + r.random(n2 + 1))
+        ds2[late[2]] = ((f"{A}_c", f"{B}_c"), 0.5 + r.random((n2, 3)))
+        g2 = Grid(ds2, coords={A: {"center": f"{A}_c", "left": f"{A}_l", "right": f"{A}_r", "outer": f"{A}_o"}, B: {"center": f"{B}_c"}},
+                  metrics={(A,): [f"first_{A}"]}, periodic=False, boundary="extend", autoparse_metadata=False)
+        at_left = xr.DataArray(r.random(n2), dims=[f"{A}_l"])
+        at_c2d = xr.DataArray(r.random((n2, 3)), dims=[f"{A}_c", f"{B}_c"])
+
         def f():
-            return {"metric_all": g.get_metric(arr, desc["listed"]), "metric_one": g.get_metric(arr, [names[0]]),
-                    "interp_like": g.interp_like(src, arr), "average": g.average(arr, desc["listed"]),
-                    "interp": g.interp(src, desc["listed"], to=to)}
+            out = {"metric_all": g.get_metric(arr, desc["listed"]), "metric_one": g.get_metric(arr, [names[0]]),
+                   "interp_like": g.interp_like(src, arr), "average": g.average(arr, desc["listed"]),
+                   "interp": g.interp(src, desc["listed"], to=to)}
+            g2.set_metrics(A, [late[k] for k in np.random.default_rng(desc["seed"]).permutation(3)])
+            out["late_batch_left"] = g2.get_metric(at_left, A)
+            out["late_batch_2d"] = g2.get_metric(at_c2d, A)
+            out["late_batch_integrate"] = g2.integrate(at_c2d, A)
+            return out
 
         return attempt(f), ("move2", len(names), frm)
     if kind == "metric":
